@@ -16,7 +16,8 @@
    the block list holds the non-empty chunks only.
    Integer widths: Go ints / uint64 are unbounded N here (c.n++, curr += len,
    int(metaLen+dataLen)); the theorems bound every encoded quantity by two64.
-   Writer errors (c.w.Write, ZSTDCompress) are not modelled (Writer.v / C12).
+   Writer errors (c.w.Write, ZSTDCompress) and the closeCh cancellation check of
+   mergeStoredAndRemap are not modelled (Writer.v / C12).
 
    Executable; the theorems are in proofs/StoredWriter_Proofs.v. *)
 From Ice Require Export Base Spec Varint Stored.
@@ -285,9 +286,9 @@ Fixpoint copy_block (fuel : nat) (buf : bytes) (blen storedOffset : N) (st : Mer
   else Ok st.
 
 (* for i := 0; i < len(s.storedFieldChunkOffsets)-1; i++ { (skip empty chunks) read,
-   decompress, walk }.  [stale i] would be the bytes of the reused buffer beyond
-   len; copy_stored_docs takes a freshly sized buffer (no stale bytes), the
-   theorems are proved for any. *)
+   decompress, walk }.  Here every chunk is walked in a buffer with cap = len
+   (no stale bytes beyond the block); StoredWriter_Proofs.copy_block_ok shows
+   that the walk does not depend on what a reused buffer holds beyond len. *)
 Fixpoint copy_blocks (blocks : list bytes) (st : MergeSt) : result MergeSt :=
   match blocks with
   | [] => Ok st
